@@ -139,7 +139,7 @@ pub fn replay(ctx: &Ctx, stage: &str, case: &Value) -> Report {
 pub const INFO: PropInfo = PropInfo {
     id: "C05",
     level: "exploration",
-    rule: "two legs. (1) the real pipeline on real threads, in-process in a child: generated collections (2/5 per-sample files, 3/5 one PanSN file with -l 1..11 so that sync-token rounds are frequent; some with > 50 samples) x workers 1..16 x queue capacity from a fraction of the largest contig, about one contig, a few contigs, to 2 GiB x explicit sync_and_flush every 1..5 contigs x producer delays x worker-side perturbation (hook H2). Oracle: push / sync_and_flush / finalize return; the archive then lists every pushed contig with compressed segments; the event log (hooks H2/H3) of the finished run is well-formed (token pulls a multiple of the worker count, each worker has one arrival and one departure per round at each of the 4 barriers, every worker logs its exit, nothing admitted after close). A run that exceeds the 90 s watchdog after neither its log nor the scheduling counters of its threads have moved for 30 s (or after 540 s in any case) is a VIOLATION only if the log proves a stuck state (every live thread's last event is a blocking wait whose wake-up condition is false in the logged queue / barrier state); or, when the hooks see no blocking wait (e.g. a thread blocked on a lock), if the operating system shows that no thread of the pipeline process ran at all during 5 s (every thread asleep in the kernel with unchanged context-switch counters over three samples, no event logged; ragc's timed waits are <= 100 ms and would register) - otherwise it is inconclusive. (2) the real queue source plus a skeleton of the protocol (1 producer, 1..4 workers, 0..3 token rounds with 4 barrier waits each, final tokens, close, join; capacity 2..12, contig sizes 1..cap and, for a quarter of them, cap+1..cap+3 - larger than the whole queue, admitted once it is empty) under shuttle's random and PCT schedulers: the deadlock detector, all contigs processed exactly once, every worker through every round. Non-trivial (leg 1) = >= 2 workers, >= 2 rounds and a producer wait observed; distinct = distinct case.",
+    rule: "two legs. (1) the real pipeline on real threads, in-process in a child: generated collections (2/5 per-sample files, 3/5 one PanSN file with -l 1..11 so that sync-token rounds are frequent; some with > 50 samples) x workers 1..16 x queue capacity from a fraction of the largest contig, about one contig, a few contigs, to 2 GiB x explicit sync_and_flush every 1..5 contigs x producer delays x worker-side perturbation (hook H2). Oracle: push / sync_and_flush / finalize return; the archive then lists every pushed contig with compressed segments; the event log (hooks H2/H3) of the finished run is well-formed (token pulls a multiple of the worker count, each worker has one arrival and one departure per round at each of the 4 barriers, every worker logs its exit, nothing admitted after close). A run that exceeds the 90 s watchdog after neither its log nor the scheduling counters of its threads have moved for 30 s (or after 540 s in any case) is a VIOLATION only if the log proves a stuck state (every live thread's last event is a blocking wait whose wake-up condition is false in the logged queue / barrier state); or, when the hooks see no blocking wait (e.g. a thread blocked on a lock), if the operating system shows that no thread of the pipeline process ran at all during 5 s (over three samples every thread is asleep in the kernel and either has unchanged context-switch counters or used <= 2 clock ticks of CPU - ragc's only timed waits are the 10-100 ms sleep-polls of drain() and sync_and_flush(), which read the queue length and wake nobody - and no event was logged) - otherwise it is inconclusive. (2) the real queue source plus a skeleton of the protocol (1 producer, 1..4 workers, 0..3 token rounds with 4 barrier waits each, final tokens, close, join; capacity 2..12, contig sizes 1..cap and, for a quarter of them, cap+1..cap+3 - larger than the whole queue, admitted once it is empty) under shuttle's random and PCT schedulers: the deadlock detector, all contigs processed exactly once, every worker through every round. Non-trivial (leg 1) = >= 2 workers, >= 2 rounds and a producer wait observed; distinct = distinct case.",
     assumptions: &["liveness is attacked in bounded form only: 'returns within the watchdog, or the log proves a stuck state'", "leg 2 tests the queue's wake-up logic under the pipeline's usage pattern with a hand-written skeleton of worker_thread(); agc_compressor.rs itself is covered by leg 1"],
     needs_cli: false,
     needs_checked: false,
